@@ -17,8 +17,10 @@ fn worlds(thorough: bool) -> Vec<Built> {
     v.push(stdworlds::build_with_roots(&stdworlds::chain_spec("c01-chain-fdd", [Enc::Fixed, Enc::Dynamic, Enc::Dynamic], 60000, 2500), &stdworlds::chain_roots()));
     v.push(stdworlds::build_with_roots(&stdworlds::chain_spec("c01-dust-dfd", [Enc::Dynamic, Enc::Fixed, Enc::Dynamic], 3000, 2500), &stdworlds::dust_roots()));
     // a position bound exactly on a tick-array edge (tick 5632 = slot 0 of the next array), roots just below / just above it
-    v.push(stdworlds::build_with_roots(&stdworlds::edge_spec("c01-edge-dfd", [Enc::Dynamic, Enc::Fixed, Enc::Dynamic]), &stdworlds::edge_roots()));
+    // (all three arrays variable-size: a bound on the edge booked through the neighbouring array has room there)
+    v.push(stdworlds::build_with_roots(&stdworlds::edge_spec("c01-edge-ddd", [Enc::Dynamic, Enc::Dynamic, Enc::Dynamic]), &stdworlds::edge_roots()));
     if thorough {
+        v.push(stdworlds::build_with_roots(&stdworlds::edge_spec("c01-edge-dfd", [Enc::Dynamic, Enc::Fixed, Enc::Dynamic]), &stdworlds::edge_roots()));
         v.push(stdworlds::build_with_roots(&stdworlds::chain_spec_at("c01-chain-low", [Enc::Dynamic, Enc::Dynamic, Enc::Fixed], 3000, 300, -112640), &stdworlds::chain_roots()));
         v.push(stdworlds::build_with_roots(&stdworlds::chain_spec_at("c01-chain-high", [Enc::Fixed, Enc::Dynamic, Enc::Dynamic], 100, 2500, 225280), &stdworlds::chain_roots()));
         v.push(stdworlds::build_with_roots(&stdworlds::std_spec("c01-std-fdd", [Enc::Fixed, Enc::Dynamic, Enc::Dynamic], 60000, 2500), &stdworlds::std_roots()[1..4]));
@@ -46,6 +48,13 @@ fn alphabet0(b: &Built) -> Vec<Op> {
     let n = b.w.positions.len() as u8;
     if b.name.contains("dust") {
         stdworlds::dust_alphabet(n)
+    } else if b.name.contains("edge") {
+        // deposits that name the array BEFORE the one holding a bound that is the first tick of its array (must be refused: the
+        // tick is not in that array; accepted, the liquidity is booked where no swap looks and never leaves the pool's total)
+        let mut a = stdworlds::std_alphabet(n, false);
+        a.push(Op::IncTa { pos: 1, liq: stdworlds::BIG / 4, lower_shift: 0, upper_shift: -1, v2: true });
+        a.push(Op::IncTa { pos: 2, liq: stdworlds::BIG / 4, lower_shift: -1, upper_shift: 0, v2: false });
+        a
     } else {
         stdworlds::std_alphabet(n, false)
     }
